@@ -539,6 +539,45 @@ func rulesC07(c *Ctx) {
 					}
 				}
 			}
+			// the same filter written as a loop: a slice that starts empty and receives, in a range over the supported
+			// versions, exactly the versions below 2026-07-28
+			suppObj := c.Obj(pM, "supportedProtocolVersions")
+			for _, f := range append([]*Func{sp}, sp.AllLits()...) {
+				inspectNoLit(f.Body, func(n ast.Node) {
+					rs, isR := n.(*ast.RangeStmt)
+					if !isR || f.ObjOf(rs.X) != suppObj || rs.Value == nil {
+						return
+					}
+					val := f.ObjOf(rs.Value)
+					fg := f.Graph()
+					for _, w := range Writes(rs.Body, false) {
+						ap, isC := ast.Unparen(w.RHS).(*ast.CallExpr)
+						if w.RHS == nil || !isC || f.BuiltinName(ap) != "append" || len(ap.Args) != 2 || ap.Ellipsis.IsValid() {
+							continue
+						}
+						dst := f.ObjOf(w.LHS)
+						if dst == nil || f.ObjOf(ap.Args[0]) != dst || f.ObjOf(ap.Args[1]) != val || val == nil {
+							continue
+						}
+						// every other write of the destination makes it empty
+						onlyFill := true
+						for _, w2 := range Writes(f.Root().Body, true) {
+							if f.ObjOf(w2.LHS) != dst || w2.Stmt == w.Stmt {
+								continue
+							}
+							if empty, _ := f.emptySlice(w2.RHS); w2.RHS != nil && !empty {
+								onlyFill = false
+							}
+						}
+						if onlyFill && hasAtom(fg.GuardsAt(fg.VertexOf(w.Stmt)), func(a Atom) bool {
+							x, y, op, ok := binaryCmp(a.E)
+							return ok && op == token.LSS && a.Val && f.ObjOf(x) == val && f.ObjOf(y) == v2026
+						}) {
+							okList = true
+						}
+					}
+				})
+			}
 			c.Check(okList, "servePOST:advertises-legacy-only", sp, call, "the advertised versions are supportedProtocolVersions minus everything >= 2026-07-28")
 		}
 		c.Pin("stateful -32022 site", n, 1)
